@@ -258,71 +258,48 @@ theorem psihatN_closure (degs : List Nat) (v : List Rat) (hv : v.length = Helper
     show Except.ok _ = Except.ok _
     congr 1; ring
 
-theorem psihatPrimeN_closure (degs : List Nat) (v : List Rat) (hv : v.length = Helpers.maxDeg degs + 1) (x : Rat)
-    (hx : x ≠ 0 ∨ 0 ∉ degs) :
-    ((PkAL degs).map (·.1)).foldlM (fun (acc_ : Rat) (k_ : Nat) => do
-        let d_13 ← PyWrap.dictGet (PkAL degs) ((k_ : Nat) : Int)
-        let d_14 ← PyWrap.vecGet v ((k_ : Nat) : Int)
-        let p_15 ← PyWrap.powI x (((k_ : Nat) : Int) - (1 : Int))
-        let d_16 ← PyWrap.vecGet (NkL degs) ((k_ : Nat) : Int)
-        let q_17 ← PyTM.fdiv ((((((k_ : Nat) : Int) : Rat) * d_13) * d_14) * p_15) d_16
-        (pure (acc_ + q_17) : Except String Rat)) 0 = .ok (psiHatPV (PkAL degs) (divNk degs v) x) := by
+/-- the generated `psihatPrime` closure of `EBCM_discrete_from_graph` (explicit sets) — the `k = 0` term is SKIPPED
+(`… for k in Pk if k>0`), so the closure is TOTAL: no hypothesis on `x` or on the degrees -/
+theorem psihatPrimeN_closure (degs : List Nat) (v : List Rat) (hv : v.length = Helpers.maxDeg degs + 1) (x : Rat) :
+    ((PkAL degs).map (·.1)).foldlM (fun (acc_ : Rat) (k_ : Nat) =>
+        if decide (((k_ : Nat) : Int) > (0 : Int)) then do
+          let d_13 ← PyWrap.dictGet (PkAL degs) ((k_ : Nat) : Int)
+          let d_14 ← PyWrap.vecGet v ((k_ : Nat) : Int)
+          let p_15 ← PyWrap.powI x (((k_ : Nat) : Int) - (1 : Int))
+          let d_16 ← PyWrap.vecGet (NkL degs) ((k_ : Nat) : Int)
+          let q_17 ← PyTM.fdiv ((((((k_ : Nat) : Int) : Rat) * d_13) * d_14) * p_15) d_16
+          (pure (acc_ + q_17) : Except String Rat)
+        else (pure acc_ : Except String Rat)) 0 = .ok (psiHatPV (PkAL degs) (divNk degs v) x) := by
   rw [fold_keys_ok _ (fun k => if 0 < k then
       ((((k : Nat) : Rat) * alGet (PkAL degs) 0 k) * (divNk degs v).getD k 0) * x ^ (k - 1) else 0)]
   · simp [psiHatPV]
   · intro k hk acc
     have hkd := keys_PkAL_mem degs k hk
     have hk' := Helpers.le_maxDeg degs k hkd
-    rw [wdictGet_key _ k hk, vecGet_nat v k (by omega)]
     by_cases hk0 : 0 < k
-    · rw [powI_pred x k hk0, vecGet_nat (NkL degs) k (by simp [NkL]; omega)]
+    · have hki : ((k : Nat) : Int) > (0 : Int) := by omega
+      rw [if_pos (decide_eq_true hki), wdictGet_key _ k hk, vecGet_nat v k (by omega), powI_pred x k hk0,
+        vecGet_nat (NkL degs) k (by simp [NkL]; omega)]
       simp only [ok_bind, GenHelpProofs.fdiv_ok _ _ (NkL_getD _ _ hkd).2, divNk, vec_getD _ _ k hk', wInv, hk0, if_true]
       show Except.ok _ = Except.ok _
       congr 1; simp; ring
     · have : k = 0 := by omega
       subst this
-      have hx' : x ≠ 0 := by
-        rcases hx with h | h
-        · exact h
-        · exact absurd hkd h
-      obtain ⟨y, hy⟩ := powI_neg x hx'
-      rw [hy, vecGet_nat (NkL degs) 0 (by simp [NkL])]
-      simp only [ok_bind]
-      rw [GenHelpProofs.fdiv_ok _ _ (NkL_getD _ _ hkd).2]
       simp
 
-/-- … at `x = 0` on a graph with an isolated node the closure raises (`0.0 ** (-1)`) -/
-theorem psihatPrimeN_closure_zero (degs : List Nat) (v : List Rat) (hv : v.length = Helpers.maxDeg degs + 1)
-    (h0 : 0 ∈ degs) :
-    ((PkAL degs).map (·.1)).foldlM (fun (acc_ : Rat) (k_ : Nat) => do
-        let d_13 ← PyWrap.dictGet (PkAL degs) ((k_ : Nat) : Int)
-        let d_14 ← PyWrap.vecGet v ((k_ : Nat) : Int)
-        let p_15 ← PyWrap.powI (0 : Rat) (((k_ : Nat) : Int) - (1 : Int))
-        let d_16 ← PyWrap.vecGet (NkL degs) ((k_ : Nat) : Int)
-        let q_17 ← PyTM.fdiv ((((((k_ : Nat) : Int) : Rat) * d_13) * d_14) * p_15) d_16
-        (pure (acc_ + q_17) : Except String Rat)) 0 = .error "ZeroDivisionError" := by
-  apply GenHelpProofs.fold_keys_err _ (fun k => if 0 < k then
-      ((((k : Nat) : Rat) * alGet (PkAL degs) 0 k) * (divNk degs v).getD k 0) * (0 : Rat) ^ (k - 1) else 0)
-  · intro k hk
-    have hkd := keys_PkAL_mem degs k hk
-    have hk' := Helpers.le_maxDeg degs k hkd
-    by_cases hk0 : 0 < k
-    · left; intro acc
-      rw [wdictGet_key _ k hk, vecGet_nat v k (by omega), powI_pred 0 k hk0,
-        vecGet_nat (NkL degs) k (by simp [NkL]; omega)]
-      simp only [ok_bind, GenHelpProofs.fdiv_ok _ _ (NkL_getD _ _ hkd).2, divNk, vec_getD _ _ k hk', wInv, hk0, if_true]
-      show Except.ok _ = Except.ok _
-      congr 1; simp; ring
-    · right; intro acc
-      have : k = 0 := by omega
-      subst this
-      rw [wdictGet_key _ 0 hk, vecGet_nat v 0 (by omega), powI_neg_zero]
-      rfl
-  · have hk : 0 ∈ (PkAL degs).map (·.1) := by
-      rw [GenHelpProofs.PkAL_keys]; exact List.mem_eraseDups.mpr h0
-    refine ⟨0, hk, fun acc => ?_⟩
-    rw [wdictGet_key _ 0 hk, vecGet_nat v 0 (by omega), powI_neg_zero]
-    rfl
+/-- … in particular at `x = 0`, isolated nodes or not: the closure does NOT raise (before the correction of the source it
+evaluated `0.0 ** (-1)` for the degree-0 class) -/
+theorem psihatPrimeN_closure_zero (degs : List Nat) (v : List Rat) (hv : v.length = Helpers.maxDeg degs + 1) :
+    ((PkAL degs).map (·.1)).foldlM (fun (acc_ : Rat) (k_ : Nat) =>
+        if decide (((k_ : Nat) : Int) > (0 : Int)) then do
+          let d_13 ← PyWrap.dictGet (PkAL degs) ((k_ : Nat) : Int)
+          let d_14 ← PyWrap.vecGet v ((k_ : Nat) : Int)
+          let p_15 ← PyWrap.powI (0 : Rat) (((k_ : Nat) : Int) - (1 : Int))
+          let d_16 ← PyWrap.vecGet (NkL degs) ((k_ : Nat) : Int)
+          let q_17 ← PyTM.fdiv ((((((k_ : Nat) : Int) : Rat) * d_13) * d_14) * p_15) d_16
+          (pure (acc_ + q_17) : Except String Rat)
+        else (pure acc_ : Except String Rat)) 0 = .ok (psiHatPV (PkAL degs) (divNk degs v) 0) :=
+  psihatPrimeN_closure degs v hv 0
 
 /-- `Σ_{k ∈ Pk} k·Pk[k]·x^(k-1)` -/
 def psiKP (Pk : List (Nat × Rat)) (x : Rat) : Rat :=
@@ -367,6 +344,25 @@ theorem psiKP_closure_zero (Pk : List (Nat × Rat)) (h0 : 0 ∈ Pk.map (·.1)) :
   · refine ⟨0, h0, fun acc => ?_⟩
     rw [wdictGet_key _ 0 h0, powI_neg_zero]; rfl
 
+/-- the `psihatPrime` closure of the `rho` branch of `EBCM_discrete_from_graph` (before the factor `1 - rho`): the `k = 0`
+term is SKIPPED (`… for k in Pk if k>0`), so it is TOTAL — the same polynomial `psiKP` for every `x`, `x = 0` included -/
+theorem psiKP_closure_pos (Pk : List (Nat × Rat)) (x : Rat) :
+    (Pk.map (·.1)).foldlM (fun (acc_ : Rat) (k_ : Nat) =>
+        if decide (((k_ : Nat) : Int) > (0 : Int)) then do
+          let d_25 ← PyWrap.dictGet Pk ((k_ : Nat) : Int)
+          let p_26 ← PyWrap.powI x (((k_ : Nat) : Int) - (1 : Int))
+          (pure (acc_ + (((((k_ : Nat) : Int) : Rat) * d_25) * p_26)) : Except String Rat)
+        else (pure acc_ : Except String Rat)) 0 = .ok (psiKP Pk x) := by
+  rw [fold_keys_ok _ (fun k => if 0 < k then (((k : Nat) : Rat) * alGet Pk 0 k) * x ^ (k - 1) else 0)]
+  · simp [psiKP]
+  · intro k hk acc
+    by_cases hk0 : 0 < k
+    · have hki : ((k : Nat) : Int) > (0 : Int) := by omega
+      rw [if_pos (decide_eq_true hki), wdictGet_key _ k hk, powI_pred x k hk0]; simp [hk0]
+    · have : k = 0 := by omega
+      subst this
+      simp
+
 theorem smul_NkL (c : Rat) (degs : List Nat) :
     PyWrap.smul c (NkL degs) = vec (Helpers.maxDeg degs) (fun k => c * ((Helpers.countEq degs k : Nat) : Rat)) := by
   unfold PyWrap.smul NkL
@@ -393,9 +389,7 @@ theorem EBCMd_sets (A : WArgs) (p : Rat) (infs : List Node) (recs : Option (List
       a.R0 = (((A.nodes.filter fun u => st u = St.R).length : Nat) : Rat) ∧
       a.phiS0 = phiOf A st St.S ∧ a.phiR0 = phiOf A st St.R ∧
       (∀ x, a.psihat x = .ok (psiHatV (PkAL (A.nodes.map A.degree)) (Sk0fin A st) x)) ∧
-      (∀ x, x ≠ 0 ∨ 0 ∉ A.nodes.map A.degree →
-        a.psihatPrime x = .ok (psiHatPV (PkAL (A.nodes.map A.degree)) (Sk0fin A st) x)) ∧
-      (0 ∈ A.nodes.map A.degree → a.psihatPrime 0 = .error "ZeroDivisionError") ∧
+      (∀ x, a.psihatPrime x = .ok (psiHatPV (PkAL (A.nodes.map A.degree)) (Sk0fin A st) x)) ∧
       a.p = p ∧ a.tmin = tmin ∧ a.tmax = tmax ∧ a.return_full_data = full := by
   unfold EBCM_discrete_from_graph_args
   have hne' : A.nodes.map A.degree ≠ [] := fun e => hne (List.map_eq_nil_iff.mp e)
@@ -422,7 +416,7 @@ theorem EBCMd_sets (A : WArgs) (p : Rat) (infs : List Node) (recs : Option (List
   have hg0 : (((gI (sumS st A.degree A.nodes) : Nat) : Int) : Rat) ≠ 0 := by
     exact_mod_cast gI_ne_zero _
   rw [hg, GenHelpProofs.fdiv_ok _ _ hg0, GenHelpProofs.fdiv_ok _ _ hg0]
-  refine ⟨_, rfl, ?_, ?_, ?_, ?_, ?_, ?_, ?_, rfl, rfl, rfl, rfl⟩
+  refine ⟨_, rfl, ?_, ?_, ?_, ?_, ?_, ?_, rfl, rfl, rfl, rfl⟩
   · simp
   · simp
   · simp [phiOf]
@@ -430,11 +424,9 @@ theorem EBCMd_sets (A : WArgs) (p : Rat) (infs : List Node) (recs : Option (List
   · intro x
     rw [← divNk_cnt A st]
     exact psihatN_closure _ _ (vec_length _ _) x
-  · intro x hx
+  · intro x
     rw [← divNk_cnt A st]
-    exact psihatPrimeN_closure _ _ (vec_length _ _) x hx
-  · intro h0
-    exact psihatPrimeN_closure_zero _ _ (vec_length _ _) h0
+    exact psihatPrimeN_closure _ _ (vec_length _ _) x
 
 theorem EBCMd_sets_error (A : WArgs) (p : Rat) (infs : List Node) (recs : Option (List Node)) (tmin tmax : Int)
     (full : Bool) :
@@ -467,19 +459,10 @@ theorem EBCMd_rho (A : WArgs) (p : Rat) (recs : Option (List Node)) (rho : Optio
       ∃ a, EBCM_discrete_from_graph_args A p none recs rho tmin tmax full = .ok a ∧
         a.N = (A.nodes.length : Rat) ∧ a.R0 = 0 ∧ a.phiS0 = 1 - r ∧ a.phiR0 = 0 ∧
         (∀ x, a.psihat x = .ok ((1 - r) * psiK (PkAL (A.nodes.map A.degree)) x)) ∧
-        (∀ x, x ≠ 0 ∨ 0 ∉ A.nodes.map A.degree →
-          a.psihatPrime x = .ok ((1 - r) * psiKP (PkAL (A.nodes.map A.degree)) x)) ∧
-        (0 ∈ A.nodes.map A.degree → a.psihatPrime 0 = .error "ZeroDivisionError") ∧
+        (∀ x, a.psihatPrime x = .ok ((1 - r) * psiKP (PkAL (A.nodes.map A.degree)) x)) ∧
         a.p = p ∧ a.tmin = tmin ∧ a.tmax = tmax ∧ a.return_full_data = full) := by
   have h2 : (rho.isSome && recs.isSome) = false := by
     cases rho <;> cases recs <;> simp at hrr ⊢
-  have hx : ∀ x : Rat, x ≠ 0 ∨ 0 ∉ A.nodes.map A.degree → x ≠ 0 ∨ 0 ∉ (PkAL (A.nodes.map A.degree)).map (·.1) := by
-    intro x h
-    rcases h with h | h
-    · exact Or.inl h
-    · right; rw [GenHelpProofs.PkAL_keys]; exact fun h' => h (List.mem_eraseDups.mp h')
-  have h0 : 0 ∈ A.nodes.map A.degree → 0 ∈ (PkAL (A.nodes.map A.degree)).map (·.1) := by
-    intro h; rw [GenHelpProofs.PkAL_keys]; exact List.mem_eraseDups.mpr h
   unfold EBCM_discrete_from_graph_args
   simp only [Option.isSome_none, Bool.and_false, Bool.false_eq_true, if_false, h2, GenHelpProofs.get_Pk_eq, ok_bind]
   cases rho with
@@ -487,16 +470,13 @@ theorem EBCMd_rho (A : WArgs) (p : Rat) (recs : Option (List Node)) (rho : Optio
     refine ⟨fun e he => by simp [rhoOr] at he, fun r hr => ?_⟩
     have : r0 = r := by simpa [rhoOr] using hr
     subst this
-    refine ⟨_, rfl, by simp, by simp, by simp, by simp, ?_, ?_, ?_, rfl, rfl, rfl, rfl⟩
+    refine ⟨_, rfl, by simp, by simp, by simp, by simp, ?_, ?_, rfl, rfl, rfl, rfl⟩
     · intro x
       show (List.foldlM _ _ _ >>= _) = _
       rw [psiK_closure]; simp
-    · intro x hx'
+    · intro x
       show (List.foldlM _ _ _ >>= _) = _
-      rw [psiKP_closure _ x (hx x hx')]; simp
-    · intro h
-      show (List.foldlM _ _ _ >>= _) = _
-      rw [psiKP_closure_zero _ (h0 h)]; rfl
+      rw [psiKP_closure_pos _ x]; simp
   | none =>
     by_cases hN : A.nodes.length = 0
     · refine ⟨fun e he => ?_, fun r hr => by simp [rhoOr, hN] at hr⟩
@@ -508,16 +488,13 @@ theorem EBCMd_rho (A : WArgs) (p : Rat) (recs : Option (List Node)) (rho : Optio
       subst this
       rw [Int.cast_natCast (R := Rat) A.nodes.length]
       simp only [fdiv_N, hN, if_false, ok_bind]
-      refine ⟨_, rfl, by simp, by simp, by simp, by simp, ?_, ?_, ?_, rfl, rfl, rfl, rfl⟩
+      refine ⟨_, rfl, by simp, by simp, by simp, by simp, ?_, ?_, rfl, rfl, rfl, rfl⟩
       · intro x
         show (List.foldlM _ _ _ >>= _) = _
         rw [psiK_closure]; simp
-      · intro x hx'
+      · intro x
         show (List.foldlM _ _ _ >>= _) = _
-        rw [psiKP_closure _ x (hx x hx')]; simp
-      · intro h
-        show (List.foldlM _ _ _ >>= _) = _
-        rw [psiKP_closure_zero _ (h0 h)]; rfl
+        rw [psiKP_closure_pos _ x]; simp
 
 /-- the `psihatPrime` of the `rho` / default branch of `EBCM_from_graph` (the record is the one of C06g's `EBCM_rho`) -/
 theorem EBCM_rho_prime (A : WArgs) (tau gamma : Rat) (recs : Option (List Node)) (rho : Option Rat)
@@ -607,7 +584,10 @@ theorem psiKP_one (Pk : List (Nat × Rat)) : psiKP Pk 1 = kAveAL Pk := by
   · have : k = 0 := by omega
     subst this; simp
 
-/-! ## `EBCM_discrete` with a partial `psihatPrime`: a successful run is the run with the totalised callback -/
+/-! ## `EBCM_discrete` with a partial `psihatPrime`: a successful run is the run with the totalised callback
+
+(Since the `psihatPrime` closures of `EBCM_discrete_from_graph` skip `k = 0` they are total, `EBCMd_sets` / `EBCMd_rho`, and
+`EBCM_discrete_of_total` applies directly; `EBCM_discrete_agree` is kept for the statements about "every successful run".) -/
 
 theorem bind_ok_inv {α β : Type} (m : Except String α) (k : α → Except String β) (l : β) (h : (m >>= k) = .ok l) :
     ∃ r, m = .ok r ∧ k r = .ok l := by
